@@ -72,8 +72,32 @@ def t_ppf(q, nu):
     return (lo + hi) / 2
 
 
-PROBS = [0.01, 0.5, 0.683, 0.9, 0.99, 1 - 2.0 ** -20]
+def t_two_sided(p, nu):
+    """t with P(|T| <= t) = p, i.e. the quantile t((1+p)/2; nu), computed from the upper tail (1-p)/2 — exact for p close to one,
+    where forming (1+p)/2 in floating point would lose the tail"""
+    tail = (1.0 - p) / 2.0          # exact for p >= 1/2 (Sterbenz), harmless rounding below
+
+    def upper(t):
+        return 0.5 * betai(nu / 2.0, 0.5, nu / (nu + t * t))
+    lo, hi = 0.0, 1.0
+    while upper(hi) > tail and hi < 1e300:
+        hi *= 2
+    for _ in range(300):
+        mid = (lo + hi) / 2
+        if upper(mid) > tail:
+            lo = mid
+        else:
+            hi = mid
+    return (lo + hi) / 2
+
+
+# all representable in f32; the last two are the largest f32 below one and its odd neighbour (the two-sided tail is then 2^-25 and
+# 3 * 2^-25: any rounding of 1 + p before the quantile is taken is visible there)
+PROBS = [0.01, 0.5, 0.683, 0.9, 0.99, 1 - 2.0 ** -20, 1 - 3 * 2.0 ** -24, 1 - 2.0 ** -24]
 BAD = [0.0, 1.0, -0.1, 1.5, float("nan"), float("inf")]
+# the largest double below one: (1 + p) / 2 is not representable and rounds to 1 (see known_findings.txt)
+EDGE = [1 - 2.0 ** -53]
+EDGE_KEY = "band-infinite-at-largest-f64-probability-below-one"
 
 
 def main(tier, seed, replay=None):
@@ -89,7 +113,7 @@ def main(tier, seed, replay=None):
             k += 1
             sc = "f32" if k % 5 == 0 else "f64"
             cases.append(statsrun.gen_stats_case(rng, M, P, M + P + dof, scalar=sc, weights=["none", "pos", "zeros"][k % 3] if dof > 2 else ["none", "pos"][k % 2], noise=0.1,
-                                                 quant=(8 if k % 3 else None), probs=PROBS + BAD))
+                                                 quant=(8 if k % 3 else None), probs=PROBS + BAD + (EDGE if sc == "f64" else [])))
     results, idx, hist, nerr = c13.run_stats_values(run, "C14", cases, binp, (20, 29, 30, 31), "confidence band")
     # many degrees of freedom (the quantile must still be Student's t with exactly N-M-P degrees of freedom): band relation only
     big = []
@@ -113,7 +137,7 @@ def main(tier, seed, replay=None):
         cu2, floor2, _ = num.params_for(c["scalar"])
         for b, pr in zip(st["bands"], PROBS):
             pr_eff = unhx(hx(pr, c["scalar"]))
-            tt = t_ppf((pr_eff + 1) / 2, dof)
+            tt = t_two_sided(pr_eff, dof)
             if abs(b["t"] - tt) > 1e-4 * max(1.0, abs(tt)):
                 run.violation("quantile mismatch for p=%r, dof=%d: %r vs %r" % (pr, dof, b["t"], tt), {"case": c}, no_failing_input=True)
             # the independent quantile (accurate to ~1e-10) decides: the band must be t * sigma with THIS t up to the accuracy of the
@@ -132,6 +156,7 @@ def main(tier, seed, replay=None):
         if code != 0:
             run.violation("band radius is not t * sigma_i (many degrees of freedom, p=%r, code %d)" % (pr, code), {"case": c})
     ndof = {}
+    nedge = 0
     for c, r in idx:
         st = r["steps"][1]["v"]["stats"]
         m = c["meta"]
@@ -139,7 +164,13 @@ def main(tier, seed, replay=None):
         ndof[dof] = ndof.get(dof, 0) + 1
         bands = st["bands"]
         good = bands[: len(PROBS)]
-        bad = bands[len(PROBS):]
+        bad = bands[len(PROBS): len(PROBS) + len(BAD)]
+        for b in bands[len(PROBS) + len(BAD):]:
+            nedge += 1
+            rad = None if b.get("panic") else [unhx(h) for h in b["radius"]]
+            if rad is None or any((not (v == v)) or v < 0 or v == float("inf") for v in rad):
+                run.violation("band radius is not finite for p = 1 - 2^-53, the largest double below one (dof %d): (1 + p) / 2 rounds to 1" % dof,
+                              {"case": c, "p": "1 - 2^-53", "band": b}, key=EDGE_KEY)
         for b, pb in zip(bad, BAD):
             if not b.get("panic"):
                 run.violation("probability %r outside (0,1) was not rejected" % pb, {"case": c, "band": b})
@@ -151,7 +182,7 @@ def main(tier, seed, replay=None):
             # the quantile the harness computed with distrs for (1+p)/2 and N-M-P degrees of freedom, cross-checked against an
             # independent evaluation of the Student-t distribution
             pr_eff = unhx(hx(pr, c["scalar"]))
-            tt = t_ppf((pr_eff + 1) / 2, dof)
+            tt = t_two_sided(pr_eff, dof)
             if abs(b["t"] - tt) > 1e-4 * max(1.0, abs(tt)):
                 run.violation("quantile mismatch for p=%r, dof=%d: %r vs %r" % (pr, dof, b["t"], tt), {"case": c}, no_failing_input=True)
             rad = [unhx(h) for h in b["radius"]]
@@ -167,7 +198,7 @@ def main(tier, seed, replay=None):
                 "arithmetic, Model/Numeric.check_stats code 30) with t the Student-t quantile at (1+p)/2 and N-M-P degrees of freedom "
                 "(cross-checked against an independent incomplete-beta evaluation), sigma_i^2 = j_i^T Cov j_i with the unweighted j_i "
                 "(code 29), finite, non-negative, one entry per sample, non-decreasing in p" % (PROBS, BAD),
-        "large_dof_band_checks": len(bterms), "dof_histogram": {str(k): v for k, v in sorted(ndof.items())}, "value_code_histogram": {str(k): v for k, v in hist.items()},
+        "large_dof_band_checks": len(bterms), "edge_probability_checks": nedge, "dof_histogram": {str(k): v for k, v in sorted(ndof.items())}, "value_code_histogram": {str(k): v for k, v in hist.items()},
         "fits_that_returned_err": nerr})
     run.samples = [{"meta": c["meta"], "scalar": c["scalar"]} for c, r in idx[:3]]
     run.assumptions = ["distrs::StudentsT::ppf is the Student-t quantile (checked here to 1e-4 relative: the crate's quantile is itself an approximation)", "C14_mono needs monotonicity of the quantile in q"]
